@@ -112,7 +112,24 @@ func (r *runner) checkAdmission(pre *preState, submitted *built, accepted bool, 
 				if !known && m.spec.nonce < cur {
 					ctx.Probe("low_nonce_admitted_oracle_unavailable")
 				}
-				if pre.pending[m.from][m.spec.nonce] {
+				pend := pre.pending[m.from][m.spec.nonce]
+				if pend && !direct {
+					// the operation (a block) may have removed the transaction that held the
+					// nonce before this one was released into the pool: judge by what is in
+					// the pool together with it now
+					pend = false
+					for _, oh := range w.content {
+						if ob := w.byHash[oh]; ob != nil && oh != h {
+							if hd := ob.head(); hd.ethSign && hd.from == m.from && hd.spec.nonce == m.spec.nonce {
+								pend = true
+							}
+						}
+					}
+					if !pend {
+						ctx.Probe("nonce_holder_left_with_the_block")
+					}
+				}
+				if pend {
 					return bad("eth-nonce-pending", i, "member %d is eth-signed by %s with nonce %d which is already pending in the pool", i, m.from, m.spec.nonce)
 				}
 			}
